@@ -193,6 +193,38 @@ func readStage(fname string, r *rand.Rand, n int) (core.Stage, error) {
 			gen.Vocab["string"] = []string{"u", "v", "auto", "x", "dm", "dv", "da"}
 			gen.Vocab["int32"] = []string{"1", "7", "-5", "1500", "3", "5"}
 			defer func() { gen.Vocab["string"] = old; gen.Vocab["int32"] = []string{"1", "7", "-5"} }()
+			// leaf-lists against their defaults under with-defaults=trim: the same values, the same
+			// text split differently, another order, a subset
+			if fname == "S7" {
+				words := abs.Path{abs.S("a"), abs.S("words")}
+				tags := abs.Path{abs.S("a"), abs.S("b"), abs.S("c"), abs.S("tags")}
+				variants := []struct{ w, t []string }{
+					{[]string{"u v"}, []string{"t1", "t2"}}, {[]string{"u", "v"}, []string{"t1 t2"}},
+					{[]string{"u"}, []string{"t2", "t1"}}, {[]string{"u v", "u"}, []string{"t1"}},
+				}
+				for i, v := range variants {
+					t := g.Subtree(abs.Path{})
+					var leaf []abs.LeafItem
+					for _, l := range t.Leaf {
+						if k := l.P.Key(); k != words.Key() && k != tags.Key() {
+							leaf = append(leaf, l)
+						}
+					}
+					t.Leaf = leaf
+					for _, c := range []abs.Path{words[:1], tags[:2], tags[:3]} {
+						if !t.HasCont(c) {
+							t.Cont = append(t.Cont, c)
+						}
+					}
+					t.Leaf = append(t.Leaf, abs.LeafItem{P: words, V: v.w}, abs.LeafItem{P: tags, V: v.t})
+					t.Canon()
+					for k, store := range stores {
+						at := []abs.Path{{}, words[:1], tags[:3]}[(i+k)%3]
+						emit(core.Case{"kind": "read", "fixture": fname, "store": store, "tree": t, "at": at,
+							"p": dread.Params{Trim: true}, "via": []string{"find", "constrain"}[(i+k)%2]})
+					}
+				}
+			}
 			for i := 0; i < n; i++ {
 				t := g.Subtree(abs.Path{})
 				store := stores[i%len(stores)]
